@@ -330,7 +330,7 @@ func runAliasCluster(sc *aliasScenario) (res aliasResult) {
 					ki := cl.KeyInfo(name, key)
 					if len(ki.Backups) > 0 {
 						var bc dmap.VerifCopy
-						deadline := time.Now().Add(2 * time.Second)
+						deadline := time.Now().Add(5 * time.Second)
 						for {
 							pc := cl.Members[ki.Owner].DB.VerifDMap().VerifCopy(partitions.PRIMARY, name, ki.HKey)
 							found := false
@@ -345,8 +345,13 @@ func runAliasCluster(sc *aliasScenario) (res aliasResult) {
 									}
 								}
 							}
-							if (bc.Found == pc.Found && (!pc.Found || bc.Timestamp == pc.Timestamp)) || time.Now().After(deadline) {
+							if bc.Found == pc.Found && (!pc.Found || bc.Timestamp == pc.Timestamp) {
 								break
+							}
+							if time.Now().After(deadline) {
+								// the backup write has not arrived (busy machine): not an observation
+								ob = []interface{}{"skip", "notsettled"}
+								return
 							}
 							time.Sleep(5 * time.Millisecond)
 						}
